@@ -174,11 +174,12 @@ def ob_fallback(sess, params):
 
 def e2_obligations(tier):
     obs = []
+    x = dict(xcheck=(tier == "thorough"), xcheck_max=3)
     names = {"==": "eq", "!=": "ne", "<": "lt", "<=": "le", ">=": "ge", ">": "gt"}
     for op in OPS:
-        obs.append(Ob("e2/check/%s/exact" % names[op], A.run_obligation(ob_numeric, None, 20000), params=dict(op=op), kind="e2",
+        obs.append(Ob("e2/check/%s/exact" % names[op], A.run_obligation(ob_numeric, None, 20000), params=dict(x, op=op), kind="e2",
                       replay=replay, budget=300, bounds=dict(operator=op, operands="unbounded Int/Real, all 8 mixes")))
-        obs.append(Ob("e2/check/%s/double" % names[op], A.run_obligation(ob_float, "QF_FP", 60000), params=dict(op=op), kind="e2",
+        obs.append(Ob("e2/check/%s/double" % names[op], A.run_obligation(ob_float, "QF_FP", 60000, alts=[("tactic:qffp", 60000)]), params=dict(x, op=op), kind="e2",
                       replay=replay, budget=600, bounds=dict(operator=op, operands="FP(11,53): finite; and with NaN/inf")))
     obs.append(Ob("e2/check/fallback", A.run_obligation(ob_fallback), params={}, kind="e2", replay=replay, budget=60,
                   bounds=dict(operands="concrete table of %d non-numeric triples, operators == and !=" % len(FALLBACK_TABLE))))
